@@ -491,6 +491,8 @@ type FreeOpts struct {
 	AfterEnd  int // further calls after the first end marker
 	// ErrorsStop: stop a path at the first error (else continue up to MaxSteps).
 	ErrorsStop bool
+	// Suffix, if set, is appended to the trace of every path (e.g. the final store).
+	Suffix func(r *Real, storer variable.Storer) string
 }
 
 // FreeResult is what FreeWalk observed.
@@ -574,6 +576,9 @@ func FreeWalk(srcs []string, o FreeOpts) *FreeResult {
 		}
 		key := fmt.Sprint(path)
 		res.Traces[key] = strings.Join(trace, " → ") + " | log=" + strings.Join(log, ";")
+		if o.Suffix != nil {
+			res.Traces[key] += " | " + o.Suffix(r, storer)
+		}
 	})
 	return res
 }
